@@ -479,6 +479,37 @@ theorem C05_remove_node [KeyedLaws κ] (c : Content κ) (n : Node) (keep : Bool)
         · refine ⟨?_, KeyedLaws.without_not_mem n k0 k h3⟩
           exact (foldShrink_has n _ c c1 e1).2 k0 ((KeyedLaws.mem_incident n _ k0).2 ⟨h1, h2⟩) k h3
 
+/-- the property's sentence for every object a user can reach: for EVERY history `ops` of the sixteen mutators (node removals
+with and without `keep_edges`, `clear`, node batches, rejected calls included) from the constructor, every extraction of the
+object `src` it ends in is faithful - `subhypergraph(nodes)` for nodes of `src`, `subhypergraph_by_orders` for any admissible
+orders / sizes, `get_edges(.., subhypergraph=True)` for any admissible (order | size, up_to, keep_isolated_nodes): returns, same
+weightedness, exactly the selected hyperedges with the weights and metadata `src` has NOW, the documented node set with
+`src`'s node metadata (`C05_induced`, `C05_by_sizes`, `C05_edges_sub` without the hypothesis `WF`) -/
+theorem C05_extractions_of_reachable [KeyedLaws κ] (w : Bool) (ops : List (Op κ)) :
+    (∀ ns, (∀ n ∈ ns, n ∈ nodesOf (run (empty w : Content κ) ops)) →
+      ∃ r, induced (run (empty w : Content κ) ops) ns = some r ∧ r.weighted = (run (empty w : Content κ) ops).weighted ∧
+        r.edges = (run (empty w : Content κ) ops).edges.filter (fun e => decide (∀ n ∈ Keyed.members e.1, n ∈ ns)) ∧
+        (∀ n, n ∈ nodesOf r ↔ n ∈ ns) ∧ (nodesOf r).Nodup ∧
+        (∀ n ∈ ns, getNodeMeta r n = getNodeMeta (run (empty w : Content κ) ops) n)) ∧
+    (∀ orders sizes keep ss, sizesArg orders sizes = some ss →
+      ∃ r, byOrders (run (empty w : Content κ) ops) orders sizes keep = some r ∧
+        r.weighted = (run (empty w : Content κ) ops).weighted ∧
+        (∀ e, e ∈ r.edges ↔ e ∈ (run (empty w : Content κ) ops).edges ∧ ((Keyed.size e.1 : Nat) : Int) ∈ ss) ∧
+        (keysOf r).Nodup ∧
+        (∀ n, n ∈ nodesOf r ↔ if keep then n ∈ nodesOf (run (empty w : Content κ) ops)
+                                else ∃ e ∈ r.edges, n ∈ Keyed.members e.1) ∧
+        (nodesOf r).Nodup ∧ (∀ n ∈ nodesOf r, getNodeMeta r n = getNodeMeta (run (empty w : Content κ) ops) n)) ∧
+    (∀ order size upTo keepIso p, edgeFilter (κ := κ) order size upTo = some p →
+      ∃ r, edgesSub (run (empty w : Content κ) ops) order size upTo keepIso = some r ∧
+        r.weighted = (run (empty w : Content κ) ops).weighted ∧
+        r.edges = (run (empty w : Content κ) ops).edges.filter (fun e => p e.1) ∧
+        (∀ n, n ∈ nodesOf r ↔ if keepIso then n ∈ nodesOf (run (empty w : Content κ) ops)
+                                else ∃ e ∈ r.edges, n ∈ Keyed.members e.1) ∧
+        (nodesOf r).Nodup ∧ (∀ n ∈ nodesOf r, getNodeMeta r n = getNodeMeta (run (empty w : Content κ) ops) n)) :=
+  ⟨fun ns hsub => C05_induced _ ns (C05_wf_reachable w ops) hsub,
+   fun orders sizes keep ss hss => C05_by_sizes _ orders sizes keep ss (C05_wf_reachable w ops) hss,
+   fun order size upTo keepIso p hp => C05_edges_sub _ order size upTo keepIso p (C05_wf_reachable w ops) hp⟩
+
 /-- the source is untouched: storing ANY extraction `f` of slot `i` (one of the functions above, `copy`, an
 extraction that raises) into another slot `j` changes no slot but `j`; in particular slot `i` holds the same
 object before and after.  (The extraction functions are functions of the source's value; on the code the
@@ -662,10 +693,32 @@ theorem C05_link_C01 (a : C01.Spec) (op : C01.Op) (op' : Op UKey) (hl : liftOp o
     ((C01.Spec.apply a op).2 = .ok ↔ (apply? (ofSpec a) op').isSome = true) :=
   link_C01 a op op' hl hwf
 
-/-- the same link for the node batches `add_nodes(node_list[, metadata])` and for `clear()` (`remove_node` is linked through the
-correspondence run only) -/
+/-- the same link for the node batches `add_nodes(node_list[, metadata])` and for `clear()` -/
 theorem C05_link_C01_nodes (a : C01.Spec) (op : C01.Op) (op' : Op UKey) (hl : liftOp2 op = some op')
     (hwf : WF (ofSpec a)) :
     ofSpec (C01.Spec.apply a op).1 = step (ofSpec a) op' ∧
     ((C01.Spec.apply a op).2 = .ok ↔ (apply? (ofSpec a) op').isSome = true) :=
   link_C01_nodes a op op' hl hwf
+
+/-- and for `remove_node(node, keep_edges)`, both values of `keep_edges`: the two-loop procedure on `C01.Spec` (which C01 proves to
+be the abstraction of the concrete id tables, with the declarative description `C01.spec_removeNode_drop / _keep`: weights add up
+on the shrunk keys, metadata of a hyperedge that shrinks onto it) gives exactly the C05 content - same nodes, same hyperedge
+listing with weights and metadata, same verdict.  `hcan`: stored keys are canonical (what `C01.SWF.key` states for the abstract
+state of every history, `C01.abs_swf`) -/
+theorem C05_link_C01_remove_node (a : C01.Spec) (n : Node) (keep : Bool) (hwf : WF (ofSpec a))
+    (hcan : ∀ k ∈ AL.keys a.edges, C01.canon k = k) :
+    ofSpec (C01.Spec.removeNode a n keep).1 = step (ofSpec a) (.removeNode n keep) ∧
+    ((C01.Spec.removeNode a n keep).2 = C01.Out.ok ↔ (apply? (ofSpec a) (.removeNode n keep)).isSome = true) :=
+  link_C01_removeNode a n keep hwf hcan
+
+-- non-vacuity of the two hypotheses and of the conclusion: node 2 removed with `keep_edges`, `(2,3,4)` shrinks onto the
+-- existing `(3,4)` (weights 4 + 12 quanta, metadata replaced), `(1,2)` becomes `(1,)`
+def C05.exSpec : C01.Spec :=
+  { weighted := true, nodes := [(1, []), (2, [(0, 1)]), (3, []), (4, [])],
+    edges := [([1, 2], (8, [(1, 1)])), ([2, 3, 4], (4, [])), ([3, 4], (12, [(2, 2)]))], hmeta := [] }
+example : WF (ofSpec exSpec) := ⟨by decide, by decide, by decide, by decide⟩
+example : ∀ k ∈ AL.keys exSpec.edges, C01.canon k = k := by decide
+example : (C01.Spec.removeNode exSpec 2 true).2 = C01.Out.ok ∧
+    (C01.Spec.removeNode exSpec 2 true).1.edges = [([3, 4], (16, [])), ([1], (8, [(1, 1)]))] ∧
+    (step (ofSpec exSpec) (.removeNode 2 true)).edges = [([3, 4], (16, [])), ([1], (8, [(1, 1)]))] ∧
+    (step (ofSpec exSpec) (.removeNode 2 true)).nodes = [(1, []), (3, []), (4, [])] := by decide
